@@ -14,6 +14,7 @@ SPECIAL_A = [[list(b'BLK? #15ab'), []],            # announces a 5-byte block, i
 
 def run(pid, tier):
     rep = lib.Report('C09', tier)
+    rep.assumptions += ['the error queue holds 128 entries in these scenarios: an overflow marker among the errors of B after an error-heavy A is an effect that flows through the queue, which the statement exempts']
     rep.cov['rule'] = ('cases = ordered pairs (A, B) of messages on one context, A and B from the single-message pool of the C08 vocabulary (1..2 units, three terminators) plus A-messages that '
                        'overrun the buffer, end incomplete and are flushed, leave block results unfinished or fail midway; B after A is compared by TLC with B on a fresh context '
                        '(handler invocations, parameters, output, errors, return value, remainder) and validated against ScpiParser; non-trivial = A ends abnormally or B uses a relative header')
@@ -36,6 +37,8 @@ def run(pid, tier):
         for b in Bs:
             sc = dict(base); sc['chunks'] = a + [b]
             scen.append(sc); refidx.append(alone[json.dumps(b)])
+    for sc in scen:
+        sc['qcap'] = 128      # large enough for every error of A and B: what an overflowing queue does to the errors of B flows through the queue (exempt in the statement)
     obs = pc.execute(rep, scen, 'default', 'C09')
     refs = [obs[j] if j is not None else None for j in refidx]
     pc.validate(rep, 'C09', scen, obs, 'C09-default', refs=refs, iso=1)
